@@ -25,6 +25,11 @@ def lin(x, a=1.0, b=0.0):
     return a + b * x
 
 
+def mu_nested(x, a=1.0, b=0.2, sig_of_x=None):
+    # log of a linear median minus half the squared sigma: depends on ANOTHER dependence function (as in the shipped OMAE2020 model)
+    return np.log(a + b * x) - 0.5 * sig_of_x(x) ** 2
+
+
 def make_slicer(spec):
     kind, arg, kw = spec
     kw = dict(kw)
@@ -47,6 +52,8 @@ TEMPLATES = {
     "lognormal_fmu": (lambda: LogNormalDistribution(f_mu=0.5), ("sigma",)),
     "ew_fbeta": (lambda: ExponentiatedWeibullDistribution(f_beta=1.5), ("alpha", "delta")),
     "ew": (lambda: ExponentiatedWeibullDistribution(f_delta=2.0), ("alpha", "beta")),
+    # the dependent parameter (mu) precedes the parameter whose dependence function it uses (sigma)
+    "lognormal_nested": (lambda: LogNormalDistribution(), ("mu", "sigma")),
 }
 MARGINALS = {
     "lognormal": lambda: LogNormalDistribution(),
@@ -66,8 +73,11 @@ def build(spec):
             descs.append({"distribution": MARGINALS[d["marginal"]](), "intervals": shared or make_slicer(sl)})
         else:
             tmpl, pars = TEMPLATES[d["template"]]
+            deps = {p: DependenceFunction(lin) for p in pars}
+            if d["template"] == "lognormal_nested":
+                deps["mu"] = DependenceFunction(mu_nested, bounds=[(0.05, None), (0.0, None)], sig_of_x=deps["sigma"])
             descs.append({"distribution": tmpl(), "conditional_on": d["on"], "intervals": shared or make_slicer(sl),
-                          "parameters": {p: DependenceFunction(lin) for p in pars}})
+                          "parameters": deps})
     return GlobalHierarchicalModel(descs)
 
 
@@ -149,8 +159,8 @@ def check_per_interval(spec, model, data, fit_desc, rtol):
             A = np.c_[np.ones_like(x), x]
             for p in pars:
                 y = np.array([e[p] for e in est], dtype=float)
-                if not np.all(np.isfinite(y)):
-                    continue
+                if not np.all(np.isfinite(y)) or (d["template"] == "lognormal_nested" and p == "mu"):
+                    continue    # (the nested function is not linear in its coefficients: its optimality is C14's subject)
                 sol, *_ = np.linalg.lstsq(A, y, rcond=None)
                 got = np.array(list(dist.conditional_parameters[p].parameters.values()), dtype=float)
                 if not np.allclose(got, sol, rtol=1e-5, atol=1e-7):
@@ -389,6 +399,7 @@ SPECS_2D = [
     {"dims": [{"marginal": "lognormal"}, {"template": "normal_fmu", "on": 0}]},
     {"dims": [{"marginal": "lognormal"}, {"template": "lognormal_fmu", "on": 0}]},
     {"dims": [{"marginal": "lognormal"}, {"template": "ew_fbeta", "on": 0}]},
+    {"dims": [{"marginal": "weibull"}, {"template": "lognormal_nested", "on": 0}]},
 ]
 SPECS_3D = [
     {"dims": [{"marginal": "lognormal"}, {"template": "lognormal", "on": 0}, {"template": "normal", "on": 1}]},
@@ -419,7 +430,7 @@ def fit_variants(spec):
 
 def main(ctx):
     ctx.rule = ("A1: 4 closed-form templates (one with a leading fixed parameter) x 6 slicer settings x ALL 7! = 5040 row orders of a 7-row matrix with ties (exact "
-                "comparison 1e-9). A2: 8 two-dimensional (3 of them with a fixed parameter that precedes a dependent one) + 3 three-dimensional structures x 6 slicer settings x n in {300, 2000(, "
+                "comparison 1e-9). A2: 9 two-dimensional (3 of them with a fixed parameter that precedes a dependent one, 1 with a dependence function nested in another) + 3 three-dimensional structures x 6 slicer settings x n in {300, 2000(, "
                 "20000)} x every fit-description assignment x a fixed family of 32 row permutations (reverse, interleave, rotations, "
                 "all 23 non-identity orders of four blocks, ascending/descending by column). A3: explicit-state BFS over histories "
                 "of fit(D_a, order_b) events on the real model. evaluations = model fits.")
@@ -458,7 +469,7 @@ def main(ctx):
         for sl in (BIG_SLICERS[0], BIG_SLICERS[2]):
             cases.append({"kind": "big", "spec": dict(spec, slicers=[list(sl)] * 3, shared_slicer_object=True), "n": 2000, "fit": None,
                           "perms": ["reverse", "blocks2031"]})
-    for spec, exact in ((SPECS_2D[0], True), (SPECS_2D[2], False), (SPECS_3D[0], True)):
+    for spec, exact in ((SPECS_2D[0], True), (SPECS_2D[2], False), (SPECS_3D[0], True), (SPECS_2D[8], False)):
         for sl in (BIG_SLICERS[0], BIG_SLICERS[4]):
             cases.append({"kind": "history", "spec": dict(spec, slicers=[list(sl)] * len(spec["dims"])), "fit": None,
                           "exact": exact, "depth": 2 if q else 3})
